@@ -322,6 +322,8 @@ def templates(cls):
         "groupby_having_orderby": [["from_", [["src", "T"]]], ["join", [["src", "U"], ["enum", "JoinType", "inner"]], {}, ["on", [["eq", UA, A]]]], ["select", [A, ["fn", "Sum", [B]]]], ["groupby", [A]], ["having", [["gt", ["fn", "Sum", [B]], ["raw", 1]]]], ["orderby", [B]]],
         "insert_target_columns_values": [["into", [["src", "T"]]], ["columns", [A, ["py", "b"]]], ["insert", [["raw", 1], ["raw", 2]]]],
         "insert_select": [["into", [["src", "U"]]], ["from_", [["src", "T"]]], ["select", [A, B]], ["where", [["gt", B, ["raw", 0]]]]],
+        # a VALUES row of an insert INTO another table holds a scalar subquery over OLD
+        "insert_values_subquery": [["into", [["src", "U"]]], ["columns", [["py", "a"], ["py", "b"]]], ["insert", [["subq", SUB_T], ["raw", 2]]], ["insert", [["raw", 3], ["subq", SUB_T]]]],
         "update_set": [["update", [["src", "T"]]], ["set", [A, ["add", B, ["raw", 1]]]], ["where", [["eq", A, ["raw", 1]]]]],
         "update_set_value_other": [["update", [["src", "U"]]], ["from_", [["src", "T"]]], ["set", [["col", "U", "b"], B]], ["where", [["eq", UA, A]]]],
         "delete": [["from_", [["src", "T"]]], ["delete", []], ["where", [["eq", A, ["raw", 1]]]]],
